@@ -198,3 +198,70 @@ Print Assumptions C02_rx_complete_run_applies.
 From N2kV Require Model.GroupFnDefs Proofs.GroupFnContractsA.
 Theorem C02_gf_lib_ok : RxSpec.gf_ok GroupFnDefs.gf_lib.  Proof. exact GroupFnContractsA.gf_lib_rx_ok. Qed.
 Print Assumptions C02_gf_lib_ok.
+
+(* ---- the public application calls (Model/ApiDefs.v): the run-level statements over extended histories (Spec/ApiRxSpec.v) ----
+   Every call except Set/Extend SingleFrame/FastPacket Messages (ASetPgnList, excluded by keeps_lists) leaves the reassembly table, the PGN
+   configuration and the known-message switch alone and delivers nothing; SetMode is included. *)
+From N2kV Require Import Model.ApiDefs Spec.ApiRxSpec Proofs.ApiRxProofs Proofs.ApiRxProofsB.
+Theorem C02_api_table_kept : api_table_kept_stmt.  Proof. exact api_table_kept. Qed.
+Print Assumptions C02_api_table_kept.
+Theorem C02_api_rx_no_corruption : api_rx_no_corruption_stmt.  Proof. exact api_rx_no_corruption. Qed.
+Print Assumptions C02_api_rx_no_corruption.
+Theorem C02_api_overlong_never : api_delivered_at_most_223_stmt.  Proof. exact api_delivered_at_most_223. Qed.
+Print Assumptions C02_api_overlong_never.
+Theorem C02_api_rx_complete_run : api_rx_complete_run_stmt.  Proof. exact api_rx_complete_run. Qed.
+Print Assumptions C02_api_rx_complete_run.
+(* the exclusion is necessary: with ASetPgnList in the history the start configuration does not classify the deliveries *)
+Theorem C02_api_rx_no_corruption_all_refuted : ~ api_rx_no_corruption_all_stmt.  Proof. exact api_rx_no_corruption_all_refuted. Qed.
+Print Assumptions C02_api_rx_no_corruption_all_refuted.
+
+(* non-vacuity: a ListenAndNode node; sender 30's three frames spread over three polls, sender 31 interleaved, 150 ms pass, and between the
+   frames the application calls SendProductInformation, SetMode, SendHeartbeat(force), Restart, SetDeviceInformationInstances and
+   SendIsoAddressClaim: the hypotheses of the lifted theorems hold and exactly sender 30's message is handed over *)
+Definition ex_api_node : rnode := with_open (cold_node true 2 5000 40 5 no_lists [mk_dev true 22 1 []] [[]] ex_cfg) 3 0.
+Definition ex_xhist : list xop :=
+  [XBase (RRx ex_a0); XApi (ASendProd 0); XBase (RRx ex_b0); XBase RPoll; XApi (ASetMode 2 40); XBase (RBase (OTick 150)); XBase (RRx ex_a1);
+   XApi (ASendHeartbeatAll true); XBase RPoll; XApi ARestart; XApi (ASetInstances 0 1 2 3); XBase (RRx ex_a2); XApi (ASendClaim 255 (-1) 0); XBase RPoll].
+Example C02_api_nonvacuous :
+  rx_clean ex_api_node /\ gf_ok gf_none /\ keeps_lists ex_xhist /\
+  fp_dlv (concat (snd (xrun gf_none ex_api_node ex_xhist))) =
+    [ {| m_pri := 3; m_pgn := 129029; m_src := 30; m_dst := 255; m_data := [1; 2; 3; 4; 5; 6; 7; 8; 9; 10; 11; 12; 13; 14; 15; 16; 17; 18; 19; 20]; m_tp := false |} ] /\
+  (* the calls do send: product information, forced heartbeat, two address claims *)
+  length (flat_map (fun e => match e with EvTx _ _ _ _ => [e] | _ => [] end) (concat (snd (xrun gf_none ex_api_node ex_xhist)))) = 4%nat.
+Proof.
+  split; [split; [reflexivity | repeat constructor] |]. split; [intros r s; repeat split |]. split; [reflexivity|]. split; vm_compute; reflexivity.
+Qed.
+Print Assumptions C02_api_nonvacuous.
+
+(* the hypotheses of the lifted completeness theorem are satisfiable: the same history *)
+Example C02_api_rx_complete_run_applies :
+  In (run_msg ex_a0 [ex_a1; ex_a2]) (fp_dlv (concat (snd (xrun gf_none ex_api_node ex_xhist)))).
+Proof.
+  apply (C02_api_rx_complete_run gf_none ex_api_node ex_xhist [] ex_a0 [ex_b0; ex_a1; ex_a2] [] [ex_a1; ex_a2] [(129029, 30, 255); (127489, 31, 255)]).
+  - intros r s; repeat split.
+  - split; [reflexivity|repeat constructor].
+  - intros k. do 15 (destruct k as [|k]; [vm_compute; reflexivity|]). vm_compute. reflexivity.
+  - reflexivity.
+  - vm_compute. discriminate.
+  - intros f Hin. cbn in Hin. repeat (destruct Hin as [<-|Hin]; [vm_compute; auto|]). destruct Hin.
+  - reflexivity.
+  - repeat split; vm_compute; reflexivity.
+  - cbn [interleaved]. right. split; [intros (_ & A & _); vm_compute in A; discriminate|]. left. eexists. split; [reflexivity|].
+    cbn [interleaved]. left. eexists. split; [reflexivity|]. reflexivity.
+  - cbn [seq_ok]. repeat split; vm_compute; congruence.
+  - vm_compute. reflexivity.
+  - intros cs' Hl E. cbn [length] in Hl. destruct cs' as [|x [|y [|z cs']]]; cbn [length] in Hl; try lia.
+    + vm_compute. reflexivity.
+    + cbn [length firstn] in E. injection E as ->. vm_compute. reflexivity.
+  - vm_compute. lia.
+Qed.
+Print Assumptions C02_api_rx_complete_run_applies.
+
+(* the clause "or emptied" of C02_api_table_kept is real: on a node that has opened the CAN controller and waits for its 200 ms, a sending
+   call reaches Open() through SendMsg, which reads the receive queue empty - the frame that had arrived is gone, nothing is sent and the
+   node is not open yet (ParseMessages and SendMsg behave the same on such a node) *)
+Example C02_api_send_before_open_empties_queue :
+  let r := with_rxq (with_open (cold_node true 2 5000 40 5 no_lists [mk_dev true 22 1 []] [[]] ex_cfg) 2 5200) [ex_a0] in
+  r_q (fst (api_step r (ASendProd 0))) = [] /\ snd (api_step r (ASendProd 0)) = [] /\ n_open (rn (fst (api_step r (ASendProd 0)))) = 2.
+Proof. vm_compute. repeat split. Qed.
+Print Assumptions C02_api_send_before_open_empties_queue.
